@@ -497,6 +497,8 @@ class Settings:
             # by default, we init module-level logging, not change it mid-run
             if force or mName not in logging.Logger.manager.loggerDict:
                 # cast verbosity to integer
+                # (a numeric level written without quotes is read from YAML as a number)
+                mLvl = str(mLvl)
                 lvl = int(mLvl) if mLvl.isnumeric() else runLog.LOG.logLevels[mLvl][0]
 
                 log = logging.getLogger(mName)
